@@ -18,7 +18,8 @@ Record cli_obs := mkCliObs {
   c_code : Z; c_stdout_lines : nat; c_best : option json; c_children : list child; c_files : list string;
   c_sentinel_ok : option bool; c_rows : list (N * N * json * option f64); c_rows_ok : bool;
   c_bestfile : option json; c_summary : option (f64 * N * N); c_survivors : nat; c_panicked : bool;
-  c_timed_out : bool; c_verbose_same : bool; c_has_failed_stdout : bool }.
+  c_timed_out : bool; c_verbose_same : bool; c_has_failed_stdout : bool;
+  c_wall_ms : N; c_limit_ms : option N; c_all_fast_ok : bool }.
 
 (** the three spec files of tools/clistream.py *)
 Definition cli_spec (i : nat) : spec :=
@@ -109,6 +110,7 @@ Definition mon_C16 (o : cli_obs) : bool :=
   (* an existing output directory is left untouched without --force *)
   match c_outdir o, c_sentinel_ok o with
   | ODExisting, Some ok => ok && Nat.eqb (length (c_files o)) 1
+  | ODExisting, None => Nat.eqb (length (c_files o)) 0      (* existed and was empty: still empty *)
   | _, _ => true
   end &&
   (* success: one stdout line, conforming JSON, files present *)
@@ -132,6 +134,21 @@ Definition mon_C16 (o : cli_obs) : bool :=
   match model_exit_zero o with
   | Some b => if any_class o (fun k => match k with KSeq | KSeqNull => true | _ => false end) then true
               else Bool.eqb b (exit_zero o)
+  | None => true
+  end.
+
+(** ** C03 through the binary: with a budget and nothing else that can end the run (no target, no
+    failing or slow child; a time limit, if any, that cannot fire), exactly N children are started *)
+Definition mon_C03 (o : cli_obs) : bool :=
+  pre_error o || opt_is (c_target o) || opt_is (c_limit_ms o) || c_has_kill_after o || negb (c_all_fast_ok o) ||
+  negb (N.eqb (ss_of o) 1) || opt_is (c_invalid o) ||
+  N.eqb (N.of_nat (n_started o)) (c_n o).
+
+(** ** C04 through the binary: a time limit that fires while a long evaluation (8 s) is in flight
+    ends the run within 2.5 s of the limit (the child is aborted, with or without -k) *)
+Definition mon_C04 (o : cli_obs) : bool :=
+  match c_limit_ms o with
+  | Some l => negb (c_timed_out o) && (pre_error o || N.leb (c_wall_ms o) (l + 2500))
   | None => true
   end.
 
@@ -200,5 +217,5 @@ Definition judge_cli (o : cli_obs) : string :=
              end in
   ("CLI idx=" ++ N2s (c_idx o) ++ " acc=" ++ acc ++
    " C07=" ++ OpsCheck.b2s (mon_C07 o) ++ " C14=" ++ OpsCheck.b2s (mon_C14 o) ++ " C15=" ++ OpsCheck.b2s (mon_C15 o) ++
-   " C16=" ++ OpsCheck.b2s (mon_C16 o) ++ " code=" ++ (if exit_zero o then "0" else "nz") ++
+   " C16=" ++ OpsCheck.b2s (mon_C16 o) ++ " C03=" ++ OpsCheck.b2s (mon_C03 o) ++ " C04=" ++ OpsCheck.b2s (mon_C04 o) ++ " code=" ++ (if exit_zero o then "0" else "nz") ++
    " kids=" ++ N2s (N.of_nat (n_started o)) ++ " END").
